@@ -15,11 +15,67 @@ import (
 
 	"github.com/blevesearch/bleve/v2"
 	"github.com/blevesearch/bleve/v2/index/scorch/mergeplan"
+	"github.com/blevesearch/bleve/v2/numeric"
 	index "github.com/blevesearch/bleve_index_api"
 	"pgregory.net/rapid"
 )
 
 // C04 — readers see whole batches, in order, and a reader's view never changes.
+
+// readerDocValuesProblem: for every document a reader enumerates, the doc values of the numeric
+// field n that the SAME reader serves (what its sorts and facets are computed from) must be the
+// stored value of n in that reader's view of the document.
+func readerDocValuesProblem(r index.IndexReader) string {
+	dvr, err := r.DocValueReader([]string{"n"})
+	if err != nil {
+		return "DocValueReader: " + err.Error()
+	}
+	dr, err := r.DocIDReaderAll()
+	if err != nil {
+		return "DocIDReaderAll: " + err.Error()
+	}
+	defer dr.Close()
+	for {
+		id, err := dr.Next()
+		if err != nil {
+			return "DocIDReader.Next: " + err.Error()
+		}
+		if id == nil {
+			return ""
+		}
+		ext, err := r.ExternalID(id)
+		if err != nil {
+			return "ExternalID: " + err.Error()
+		}
+		var got []string
+		if err := dvr.VisitDocValues(id, func(field string, term []byte) {
+			if field != "n" {
+				return
+			}
+			if ok, shift := numeric.ValidPrefixCodedTermBytes(term); ok && shift == 0 {
+				i64, _ := numeric.PrefixCoded(term).Int64()
+				got = append(got, strconv.FormatFloat(numeric.Int64ToFloat64(i64), 'g', -1, 64))
+			}
+		}); err != nil {
+			return "VisitDocValues: " + err.Error()
+		}
+		d, err := r.Document(ext)
+		if err != nil || d == nil {
+			return fmt.Sprintf("Document(%s) of an enumerated document: %v %v", ext, d, err)
+		}
+		var want []string
+		for _, f := range StoredFieldsOf(d) {
+			if strings.HasPrefix(f, "n|") {
+				want = append(want, f[strings.LastIndex(f, "|")+1:])
+			}
+		}
+		sort.Strings(got)
+		sort.Strings(want)
+		if strings.Join(got, ",") != strings.Join(want, ",") {
+			return fmt.Sprintf("document %s: the reader's doc values of n are %v, its stored n is %v", ext, got, want)
+		}
+	}
+}
 
 // observeBatches runs one search over all writer-owned documents and returns, per writer,
 // the batch number its four documents carry (0 = none present).  A mixture is a torn batch.
@@ -146,6 +202,7 @@ func TestC04Readers(t *testing.T) {
 	ev.SetRule("rapid: 1-3 concurrent writers (each batch rewrites the writer's four documents with n=j and its internal key, plus churn on shared ids), 1-3 search clients, 0-2 long-lived index readers, forced merges, on scorch disk (drawn persister/merge options, in-memory merges with several workers, numSnapshotsToKeep 1-3), scorch memory, upsidedown gtreap/boltdb; seeded delay plan at lock-free hook points and GOMAXPROCS in {1,2,4,16}; " +
 		"oracle over the recorded observations: (1) one search result never shows part of a batch; (2) the batch seen is >= the writer's acknowledged count read before the search and <= its submitted count read after; (3) per client the batch numbers never decrease (searches and internal-key reads interleaved); (4) Total equals the hits of the same result; (5) a held reader's digest (DocCount, enumerated ids, stored documents, internals, three term postings) is identical at acquisition, after all writers/merges finished and before Close, and its DocCount equals the number of ids it enumerates; " +
 		"contended-ids mode: 2-4 writers issue 2-10 Batch/Index/Delete calls each on the same 1-3 ids at the same time (all engines, documents up to a few KB so that analysis takes time); at quiescence every id must hold the version of some writer's last call on it, be listed and counted once, and be found under the terms of that version only (non-trivial there = an id written by >=2 writers); " +
+		"(6) every held reader, read for doc values only after all writes (the clients sort on n through newer snapshots meanwhile; one case in three uses a mapping without persisted doc values), serves doc values of n equal to the stored n of its own view of each document; " +
 		"non-trivial = >=1 read overlapped an in-flight batch and >=1 reader was held across >=1 later batch")
 	ev.Assume("DocCount and Search are separate calls, so count/contents agreement is only required inside one result or one reader; schedules are sampled")
 	checkPropN(t, "C04", 60, func(t *rapid.T) {
@@ -187,7 +244,12 @@ func TestC04Readers(t *testing.T) {
 		InstallHook(HookPlan{Mode: "delay", DelaySeed: seed, DelayMaxUS: 800})
 		defer ClearHook()
 		dir := TempDir(t)
+		// one case in three keeps no doc values: sorts and facets then come from the cache scorch
+		// builds per segment by un-inverting, which all snapshots of a segment share
+		worldDocValues = rapid.IntRange(0, 2).Draw(t, "docvalues") != 0
+		dvOff := !worldDocValues
 		idx, err := cfg.Create(dir+"/idx", WorldMapping())
+		worldDocValues = true
 		if err != nil {
 			t.Fatalf("create %s: %v", cfg, err)
 		}
@@ -231,6 +293,16 @@ func TestC04Readers(t *testing.T) {
 					ackBefore := make([]int64, nw)
 					for w, sw := range writers {
 						ackBefore[w] = sw.acked.Load()
+					}
+					if i%4 == 1 {
+						// a search sorted on n through the current root (fills scorch's per-segment
+						// doc-value caches when the mapping keeps no doc values)
+						sreq := bleve.NewSearchRequestOptions(bleve.NewMatchAllQuery(), 5, 0, false)
+						sreq.SortBy([]string{"-n", "_id"})
+						if _, err := idx.Search(sreq); err != nil {
+							rep.msg = "sorted search: " + err.Error()
+							return
+						}
 					}
 					var seen []int
 					if i%3 == 2 {
@@ -371,6 +443,11 @@ func TestC04Readers(t *testing.T) {
 			if again != f.digest {
 				t.Fatalf("%s: the view of reader %d (taken after ack %d of writer 0) changed while it was held:\n at acquisition %s\n after writes    %s", desc, i, f.atAck, f.digest, again)
 			}
+			// only now does this reader read doc values: by this time newer snapshots have
+			// sorted on n (the clients do), so any per-segment cache is already filled
+			if problem := readerDocValuesProblem(f.r); problem != "" {
+				t.Fatalf("%s: reader %d (taken after ack %d of writer 0), read after all writes: %s", desc, i, f.atAck, problem)
+			}
 			if int64(writers[0].nbatches) > f.atAck {
 				heldAcross++
 			}
@@ -396,6 +473,9 @@ func TestC04Readers(t *testing.T) {
 		closed = true
 		nt := overlaps >= 1 && (heldAcross >= 1 || nreaders == 0 && totalObs >= 10)
 		cl := []string{"engine:" + cfg.Engine, fmt.Sprintf("gomaxprocs:%d", procs)}
+		if dvOff {
+			cl = append(cl, "mapping-without-doc-values")
+		}
 		if heldAcross > 0 {
 			cl = append(cl, "reader-held-across-writes")
 		}
